@@ -266,7 +266,8 @@ def run_ob(ob, scratch):
             ob.failed_desc = [d for k, d in real]
             k, d = real[0]
             extra = ["--trace", "--property", k] if not ob.paths else ["--trace"]
-            rc2, out2, dt2 = run(cbmc_cmd(ob, gb, extra), ob.timeout * 2, ob.mem_gb)
+            # the trace run must not slice: --slice-formula removes the (write-only) nd log h_nd_vals[] from the trace
+            rc2, out2, dt2 = run([c for c in cbmc_cmd(ob, gb, extra) if c != "--slice-formula"], ob.timeout * 2, ob.mem_gb)
             ob.solver_s += dt2
             st, msg, path = replay(ob, scratch, out2, re.sub(r"\W+", "_", d)[:40])
             ob.replay_path = path
